@@ -110,6 +110,11 @@ def gen_cases(ctx):
             cases.append(('seps', a, a.replace('l2', 'L2x')))
             cases.append(('seps', a, 'l1' + s1 + 'l3'))
             cases.append(('seps', a, 'n0' + s2 + a))
+    # string shapes (base shape x edit shape), top level and as a member
+    import gen_nb
+    for rep in range(1 if ctx.tier == 'quick' else 10):
+        for k, (label, a, b) in enumerate(gen_nb.string_shapes(rng)):
+            cases.append(('string-shapes', a, b) if (k + rep) % 2 else ('string-shapes', {'s': a}, {'s': b}))
     for _ in range(n_rand):
         alias = rng.random() < 0.15
         a, b = gen_json.pair(rng, alias=alias)
